@@ -14,7 +14,7 @@ for m in sorted(glob.glob(os.path.join(HERE, "seeded", "*", "meta.json"))):
         r = subprocess.run(["patch", "-p1", "-s", "-i", os.path.join(d, "patch.diff")], cwd=s, capture_output=True, text=True)
         if r.returncode != 0:
             rows.append((meta["id"], "PATCH DOES NOT APPLY", "")); continue
-        r = subprocess.run([os.path.join(HERE, "bin", "otterlint"), "-property", meta["property"], "-repo", s, "-verif", HERE, "-no-evidence"], capture_output=True, text=True, env=ENV)
+        r = subprocess.run([os.environ.get("OTTERLINT", os.path.join(HERE, "bin", "otterlint")), "-property", meta["property"], "-repo", s, "-verif", HERE, "-no-evidence"], capture_output=True, text=True, env=ENV)
         rules = sorted({l.split(": ")[1] for l in r.stdout.split("\n") if ": C" in l and not l.startswith(("VIOLATION", "KNOWN")) and "(" in l})
         rows.append((meta["id"], "caught" if (r.returncode == 1 and rules) else "MISSED(exit %d)" % r.returncode, ",".join(rules)))
     finally:
